@@ -121,7 +121,31 @@ theorem shortcuts_eq_general (e : Expr) (V : List String) (cs : List Rat)
     Py.coeffsGeneral e V = .ok cs :=
   (extractAll_eq_general hn hinv h).2
 
-/-- the missing half of the shortcut test, proved instead of checked: a vector operand whose
+/-- the size condition of a `LinearCombination` over a `VectorVariable` (what its constructor checks) -/
+def lcSizes : Expr → Bool
+  | .linComb cs (.vars vv) => cs.length == vv.vars.length
+  | _ => true
+
+/-- … at the positions where the shortcuts look -/
+def shortcutSizes : Expr → Bool
+  | .bin _ l r => lcSizes l && lcSizes r
+  | e => lcSizes e
+
+/-- **After the repair F35** (`_vector_is_aligned` checks every position, not only the first) the invariant the
+    shortcuts rely on is nothing but the size check of the constructors: the vector part holds for EVERY vector.
+    Before the repair it was a genuine hypothesis that only monotone views satisfied (`names_eq_of_sorted` below); a row
+    of `diag_matrix(x)` violated it and `c @ D[1,:]` was extracted with permuted columns — the hypothesis the proof had
+    forced was a real defect (found by a seeding sub-agent exploring C05). -/
+theorem shortcutInv_iff_sizes (V : List String) (e : Expr) : shortcutInv V e = shortcutSizes e := by
+  have hn : ∀ e : Expr, nodeInv V e = lcSizes e := by
+    intro e
+    cases e with
+    | linComb cs v => cases v <;> simp [nodeInv, lcSizes, vecInv_always]
+    | vecSum vv => simp [nodeInv, lcSizes, vecInv_always]
+    | _ => simp [nodeInv, lcSizes]
+  cases e <;> simp [shortcutInv, shortcutSizes, hn]
+
+/-- (historical, about the pre-repair guard) the missing half of the shortcut test, proved instead of checked: a vector operand whose
     element names are strictly increasing or strictly decreasing in the order that strictly sorts
     the problem variables (every slice, row, column, diagonal of the public API), all of them
     problem variables, satisfies the invariant — if it has `n` elements and its first element is
